@@ -139,8 +139,13 @@ def pack_read(basename, probes_seed):
     try:
         shas = sorted(p.index)
         for sha in shas:
-            t, chunks = p.get_raw(sha)
-            out["objects"][sha.decode()] = [t, _sha1(chunks if isinstance(chunks, bytes) else b"".join(chunks))]
+            try:
+                t, chunks = p.get_raw(sha)
+                out["objects"][sha.decode()] = [t, _sha1(chunks if isinstance(chunks, bytes) else b"".join(chunks))]
+            except (KeyboardInterrupt, SystemExit):
+                raise
+            except BaseException as e:  # noqa: BLE001
+                out["objects"][sha.decode()] = ["failed", type(e).__name__]
         idx = p.index
         raw = [bytes.fromhex(s.decode()) for s in shas]
         probes = list(raw)
@@ -235,20 +240,36 @@ def disk_repo(res, d, worlds):
     res["disk_repo"] = out
 
 
+def _section(res, name, fn):
+    """A failing operation is an observation of this mode, not the end of the scenario."""
+    try:
+        return fn()
+    except (KeyboardInterrupt, SystemExit):
+        raise
+    except BaseException as e:  # noqa: BLE001
+        res[name] = {"failed": f"{type(e).__name__}: {str(e)[:200]}"}
+        return None
+
+
 def scenario(job):
     res = {"info": {}}
     d = job["dir"]
     mode = job["mode"]
     if job["step"] == 1:
         worlds = make_worlds(job["seed"], job["rounds"])
-        objs = diff_scenarios(res, worlds)
-        res["pack_objects"] = pack_write(res, objs, os.path.join(d, mode))
+        objs = _section(res, "diff", lambda: diff_scenarios(res, worlds)) or []
+
+        def wr():
+            res["pack_objects"] = pack_write(res, objs, os.path.join(d, mode))
+        _section(res, "pack_written", wr)
         own = os.path.join(d, "own-" + mode)
         os.makedirs(own)
-        disk_repo(res, own, worlds)
+        _section(res, "disk_repo", lambda: disk_repo(res, own, worlds))
     else:
         for name in job["packs"]:
-            r = pack_read(os.path.join(d, name), job["seed"])
-            res["info"][f"read:{name}"] = r.pop("n_delta_info")
-            res[f"read:{name}"] = r
+            def rd(name=name):
+                r = pack_read(os.path.join(d, name), job["seed"])
+                res["info"][f"read:{name}"] = r.pop("n_delta_info")
+                res[f"read:{name}"] = r
+            _section(res, f"read:{name}", rd)
     return res
